@@ -27,6 +27,7 @@ def bodyOf : List String → Option (List Step)
   | ["meta"] => some metaBody
   | ["predict", a] => (nat? a).map predictBody
   | ["multi", _] => some []
+  | ["bad", _, _] => some [.mem (fun _ => none)]    -- a request that fails, whatever the reason: no effect, an error reply
   | _ => none
 
 def showReply : Option (List String) → String
